@@ -302,7 +302,7 @@ func c06Text(c *Ctx, f c06Fns) DTXSpec {
 		},
 		Observe: boolObserve,
 		Oracle: func(env *OracleEnv) ([]string, bool) {
-			ok := env.Bool("strings.Contains(value,txt.Text)") != env.Bool("txt.NegateCondition")
+			ok := env.Pred("strings.Contains", "value", "txt.Text") != env.Bool("txt.NegateCondition")
 			return []string{map[bool]string{true: "true", false: "false"}[ok]}, true
 		},
 	}
